@@ -205,4 +205,43 @@ def walkSpec (fold : Char → List Char) (F : FileSet) (D : Str) : List (Str × 
 def addSys (ms : List Member) (m : Member) (priority : Bool) : List Member :=
   if priority then m :: ms else ms ++ [m]
 
+/-! ## a chain object as a state machine: histories of mutations and queries
+
+`FileSystemChain` keeps nothing but `self.systems`; every query is answered from the member list
+as it is *now*.  Mutations: `add_sys(sys, prefix, priority=…)` and `systems.pop(i)` (as
+`packlist.py` does with `systems.pop(0)` after a priority insertion). -/
+
+inductive Op
+  | add (m : Member) (priority : Bool)
+  | pop (i : Nat)
+  | lookup (q : Str)
+  | walk (d : Str)
+  | walkRepeat (d : Str)
+deriving Repr
+
+inductive Obs
+  | done
+  | popError                 -- IndexError
+  | look (r : Except C18.Err (Str × Nat))
+  | listing (r : Except C18.Err (List (Str × Nat)))
+
+/-- The member list after a mutation (queries leave it unchanged). -/
+def applyOp (ms : List Member) : Op → List Member
+  | .add m p => addSys ms m p
+  | .pop i => if i < ms.length then ms.eraseIdx i else ms
+  | _ => ms
+
+/-- What one operation returns on a chain whose members are `ms`. -/
+def observe (E : Env) (ms : List Member) : Op → Obs
+  | .add _ _ => .done
+  | .pop i => if i < ms.length then .done else .popError
+  | .lookup q => .look (chainLookup E q ms)
+  | .walk d => .listing (chainWalk E d ms)
+  | .walkRepeat d => .listing (chainWalkRepeat E d ms)
+
+/-- Run a history on one chain object. -/
+def runHist (E : Env) : List Member → List Op → List Obs
+  | _, [] => []
+  | ms, op :: ops => observe E ms op :: runHist E (applyOp ms op) ops
+
 end C19
